@@ -225,6 +225,9 @@ def decompose_and_order(graph, component, component_name, bo_start=0):
         f" It took {time.perf_counter() - start} seconds to find the Biconnected Components"
     )
     bubbles = []
+    # names of the bubble nodes in the scaffold graph; they start with a tab, which cannot
+    # occur in a GFA node id, so they never collide with the articulation points
+    bubble_ids = dict()
     scaffold_graph = GFA()
     scaffold_node_types = dict()
     for n in artic_points:
@@ -250,10 +253,12 @@ def decompose_and_order(graph, component, component_name, bo_start=0):
         else:
             bubble_index = len(bubbles)
             bubbles.append(bc_inside_nodes)
-            scaffold_graph.add_node(str(bubble_index))
-            scaffold_node_types[str(bubble_index)] = "b"
+            bubble_name = "\tbubble%d" % bubble_index
+            bubble_ids[bubble_name] = bubble_index
+            scaffold_graph.add_node(bubble_name)
+            scaffold_node_types[bubble_name] = "b"
             for end_node in bc_end_nodes:
-                scaffold_graph.add_edge(str(bubble_index), "+", end_node, "+", 0)
+                scaffold_graph.add_edge(bubble_name, "+", end_node, "+", 0)
 
     logger.info(f"  Bubbles: {len(bubbles)}")
     logger.info(f"  Scaffold graph: {len(scaffold_graph)} nodes")
@@ -304,7 +309,7 @@ def decompose_and_order(graph, component, component_name, bo_start=0):
         if node_type == "s":
             node_order[node] = (bo, 0)
         elif node_type == "b":
-            for i, n in enumerate(sorted(bubbles[int(node)])):
+            for i, n in enumerate(sorted(bubbles[bubble_ids[node]])):
                 node_order[n] = (bo, i + 1)
         else:
             assert False
